@@ -263,6 +263,7 @@ def run_verus(tmp, o, extra_suffix=""):
     with open(path, "w") as f:
         f.write(text)
     r["unit_hash"] = hashlib.sha256(text.encode()).hexdigest()[:16]
+    r["vacuity_markers"] = text.count("/*@VACUITY*/") + text.count("/*@VACUITY-ON*/")
     r["rules"] = meta["rules"]
     r["lines"] = text.count("\n")
     r["sliced"] = meta["sliced"]
@@ -434,9 +435,9 @@ def main(argv):
                     # vacuity pass: the unit with `ensures false` spliced on the target fn must fail
                     v = run_verus(tmp, dict(o, unit=o["unit"]), extra_suffix=lambda t: extract.falsify(t))
                     r["vacuity_pass"] = v["status"]
-                    if v["status"] == "success":
+                    if v["status"] == "success" or (v["status"] == "failed" and v["errors"] < r.get("vacuity_markers", 1)):
                         r["status"] = "vacuous"
-                        undecided.append((o, "unit still verifies with `ensures false`: contradictory requires"))
+                        undecided.append((o, "with `ensures false` spliced into %d contracts only %d fail: contradictory requires" % (r.get("vacuity_markers", 1), v["errors"])))
             elif r["status"] == "failed":
                 violations.append(o)
             else:
@@ -491,7 +492,7 @@ def main(argv):
                 target = next((k for k in registry.OBLIGATIONS if k["id"] == o.get("paired")), None)
             if target is not None and not a.no_replay_search:
                 try:
-                    if target is not o or True:
+                    if not target.get("level") == "probe-only":
                         ov2 = make_overlay(os.path.join(tmp, "ce"))
                         attach_kani_modules(ov2, [target["module"]], KANI_DIR)
                         tests = kani_playback_print(ov2, target, target.get("timeout", 600))
@@ -503,7 +504,9 @@ def main(argv):
                         if failing:
                             confirmed = True
                             verdict = "counterexample replayed natively on the real code: " + ", ".join(failing)
-                            tests = [t for t in tests if any(n in t for n in failing)]
+                            tests = [t for t in tests if any(n in t for n in failing)][:3]
+                            verdict = "counterexample replayed natively on the real code (%d failing inputs, first %d kept): %s" % (
+                                len(failing), len(tests), ", ".join(failing[:3]))
                         else:
                             verdict = "verifier counterexample did not reproduce natively; no-failing-input-found"
                 except Exception as e:  # replay search is best effort
